@@ -94,6 +94,15 @@ type Instance struct {
 	sched       *Sched
 }
 
+// BootInstance opens a Dirk stack like NewInstance, inside a bubble, and hands the goroutines the stack started
+// for itself (storage housekeeping) to the scheduler: they park at their first yield point instead of racing the run.
+func BootInstance(s *Sched, name string, cfg InstCfg) (*Instance, error) {
+	bg := s.BeginBoot(name)
+	inst, err := NewInstance(s, name, cfg)
+	s.EndBoot(bg, inst)
+	return inst, err
+}
+
 // NewInstance opens a Dirk stack on cfg.Dir.
 func NewInstance(s *Sched, name string, cfg InstCfg) (*Instance, error) {
 	ctx, cancel := context.WithCancel(context.Background())
